@@ -370,9 +370,59 @@ Fixpoint apply_ops (root : json) (ops : list json) : pres json :=
 Definition all_objects (ops : list json) : bool :=
   forallb (fun o => match o with JObj _ => true | _ => false end) ops.
 
+(* doccomposer.checkCopyIntoSelf: a copy whose destination lies inside its own source *)
+Definition norm_token (t : string) : Z + string :=
+  let d := decode_key t in
+  match atoi d with Some z => inl z | None => inr d end.
+
+Definition norm_token_eqb (a b : string) : bool :=
+  match norm_token a, norm_token b with
+  | inl x, inl y => (x =? y)%Z
+  | inr x, inr y => String.eqb x y
+  | _, _ => false
+  end.
+
+Fixpoint tokens_prefix (a b : list string) : bool :=
+  match a, b with
+  | [], _ => true
+  | x :: a', y :: b' => andb (norm_token_eqb x y) (tokens_prefix a' b')
+  | _ :: _, [] => false
+  end.
+
+Definition field_str (op : obj) (k : string) : option string :=
+  match lookup k op with
+  | Some (JStr s) => Some s
+  | Some JNull | None => Some ""        (* absent or null: the Go variable keeps its zero value *)
+  | Some _ => None                      (* not a string: checkCopyIntoSelf gives up *)
+  end.
+
+Definition copy_into_self (opj : json) : bool :=
+  match opj with
+  | JObj op =>
+      match field_str op "op", field_str op "from", field_str op "path" with
+      | Some kind, Some from, Some path =>
+          if negb (String.eqb kind "copy") then false else
+          let ft := split_path from in
+          let pt := split_path path in
+          if Nat.leb (length pt) (length ft) then false
+          else tokens_prefix (tl ft) (tl pt)
+      | _, _, _ => false
+      end
+  | _ => false
+  end.
+
+(* applyJSON after the fix: operations are applied one at a time on the re-serialised
+   document (so the node sharing of `copy` is never observable: the tree model is exact) *)
+Fixpoint apply_ops_checked (root : json) (ops : list json) : pres json :=
+  match ops with
+  | [] => POk root
+  | o :: r => if copy_into_self o then PErr
+              else pbind (apply_op root o) (fun root' => apply_ops_checked root' r)
+  end.
+
 Definition jsonpatch_apply (doc : obj) (ops : list json) : pres obj :=
   if negb (all_objects ops) then PErr else
-  pbind (apply_ops (JObj doc) ops) (fun r =>
+  pbind (apply_ops_checked (JObj doc) ops) (fun r =>
     match r with JObj m => POk m | _ => PErr end).
 
 (* ---- domain of the tree model: no use of the node sharing created by `copy` ---- *)
